@@ -13,7 +13,7 @@ def main():
     if "--tier" in sys.argv:
         tier = sys.argv[sys.argv.index("--tier") + 1]
         args = [a for a in args if a != tier]
-    seed, props = args[0], args[1:]
+    seed, props = os.path.abspath(args[0]), args[1:]
     patch = os.path.join(seed, "patch.diff")
     st = sh("git -C /repo status --porcelain").stdout.strip()
     if st:
